@@ -229,6 +229,13 @@ pub fn gen_cfg(seed: u64, case: u64, tier: &str, mode: u8) -> Cfg {
         let op = match mode { 2 => if case % 3 == 2 { if k + 1 == nscript { 1 } else { 0 } } else if k % 2 == 0 { 0 } else { 1 }, _ => r.below(5) as u8 };
         script.push((op, *r.pick(&[0u64, 50, 300, 2000, 8000])));
     }
+    // corpus: more chains than workers and an immediate pause/resume (pause/pause/resume), so that chains which have not been picked up by a
+    // worker hold the commands in their mailbox when they start (seeded change C11-resume-skips-unstarted is schedule dependent otherwise)
+    let (mut num_chains, mut num_cores) = (num_chains, num_cores);
+    if (mode == 1 || mode == 2) && (case == 3 || case == 4) {
+        num_chains = 4; num_cores = 1; num_tune = 20; num_draws = 10;
+        script = if case == 3 { vec![(0, 0), (1, 0)] } else { vec![(0, 0), (0, 200), (1, 300)] };
+    }
     let total = num_tune + num_draws;
     let failure = if mode == 3 {
         let chain = r.below(num_chains as u64);
@@ -240,7 +247,7 @@ pub fn gen_cfg(seed: u64, case: u64, tier: &str, mode: u8) -> Cfg {
             _ => Failure::RecoverableOnly { chain, period: 5 + r.below(20) },
         }
     } else { Failure::None };
-    Cfg { gen_seed: seed, gen_tier: tier.to_string(), preset: match mode { 3 => 0, _ => (case % 3) as u8 }, seed: r.next() | 1, sched: r.next() | 1, num_chains, num_cores, num_tune, num_draws, dim: 2 + r.below(3) as usize, script, end_abort: match mode { 1 => case % 3 == 0, 3 => case % 2 == 0, _ => false }, failure }
+    Cfg { gen_seed: seed, gen_tier: tier.to_string(), preset: match mode { 3 => 0, _ => (case % 3) as u8 }, seed: r.next() | 1, sched: r.next() | 1, num_chains, num_cores, num_tune, num_draws, dim: 2 + r.below(3) as usize, script, end_abort: match mode { 1 => case % 3 == 0 && case != 3, 3 => case % 2 == 0, _ => false }, failure }
 }
 
 fn emit_chain_records(cases: &mut Cases, case: u64, cfg: &Cfg, events: &[(u64, u8, u64)]) {
